@@ -1,4 +1,5 @@
 import RaftProofs.ClusterCommit3H
+import RaftProps.C01d
 
 /-!
 # C01 / C03 / C04, cluster level — the commit rule, Leader Completeness and State-Machine Safety for
@@ -35,6 +36,9 @@ on the initial state,
 term of any node).
 
 The main induction is `RaftModel.Cluster.sm_all` (`RaftProofs/ClusterCommit3G.lean`).
+
+**Update**: the gaps `anch` and `norir` are discharged in `RaftProps/C01d.lean` (bundle `Hyp3w`); the
+theorems of this file are now corollaries of the ones there (`Hyp3.toHyp3w`).
 -/
 namespace RaftProps.C01
 open RaftModel RaftModel.Cluster RaftModel.Node RaftModel.Raft RaftModel.Raft.CC
@@ -97,31 +101,9 @@ theorem C04_cluster_leader_commit_rule (cfg : JointConfig) (c0 : Nat) (h : List 
         stb.raft.raftLog.committed ≤ x.index ∧
         ∀ (m : Nat) (s : Sys) (stj : NState), h[m]? = some s → x ∈ s.net → s.node j = some stj →
           ∀ k, k ≤ stb.raft.raftLog.committed →
-            (storeLog stj.raft.raftLog.store).entryAt k = stb.raft.raftLog.abs.entryAt k := by
-  have H2 := H.toHyp2
-  obtain ⟨h1, Q, hQ, hq⟩ := H2.toHyp.commit_step n a b ha hb l sta stb hla hlb hs hc
-  subst ht
-  have hE := ev_of_step ha hb hla hlb hs hc
-  obtain ⟨_, hEh, hc0⟩ := Ev.leaderLog H2 hE
-  have ob := node_ok H2 hb hlb
-  refine ⟨h1, Q, hQ, fun j hj => ?_⟩
-  rcases hq j hj with ⟨g1, g2⟩ | ⟨x, hx, hack, hfrm, hterm, hidx⟩
-  · exact .inl ⟨g1, g2, fun k hk => (ob.inv.abs_store_persisted ob.snap (by omega)).symm⟩
-  · right
-    have hx0 : x.index ≠ 0 := by
-      have : c0 < stb.raft.raftLog.committed := hc0
-      omega
-    have hterm' : x.term = stb.raft.term := by
-      rcases hterm with d | d
-      · exact d
-      · exact absurd d ((ack_inv H2 n a ha).2 x hx hack hx0).2
-    refine ⟨x, hx, hack.1, hack.2, hfrm, hterm', hidx, fun m s stj hm hxs hj k hk => ?_⟩
-    have hh := (sm_all H hm).rets _ hE j stj hj (.inl ⟨x, hxs, hack, hfrm, hterm', hidx⟩)
-    obtain ⟨e1, he1, ht1⟩ := hh
-    obtain ⟨e2, he2, ht2⟩ := hEh
-    have oj := node_ok H2 hm hj
-    have hag := agree_all H2 m (n + 1) s b hm hb (.store j) (.log l) _ _ ⟨stj, hj, rfl⟩ (at_log hlb)
-    exact eq_below hag (oj.ssnap.trans ob.snapIdx.symm) he1 he2 (ht1.trans ht2.symm) k hk
+            (storeLog stj.raft.raftLog.store).entryAt k = stb.raft.raftLog.abs.entryAt k :=
+  RaftProps.C01d.C04_cluster_leader_commit_rule cfg c0 h H.toHyp3w n a b ha hb l sta stb hla hlb t
+    hs ht hc
 
 /-- **C03 `cluster_leader_completeness`** — every entry a leader has committed is in the log of every
 leader of a later term: if a step `h[n] → h[n+1]` takes the commit index of `l`, leader of term `t`
@@ -137,22 +119,14 @@ theorem C03_cluster_leader_completeness (cfg : JointConfig) (c0 : Nat) (h : List
     (hl' : s.node l' = some st') (hs' : st'.raft.state = .leader)
     (ht : stb.raft.term < st'.raft.term) :
     ∀ k, k ≤ stb.raft.raftLog.committed →
-      st'.raft.raftLog.abs.entryAt k = stb.raft.raftLog.abs.entryAt k := by
-  have H2 := H.toHyp2
-  have hE := ev_of_step ha hb hla hlb hs hc
-  obtain ⟨hEl, hEh, _⟩ := Ev.leaderLog H2 hE
-  have hh := (sm_all H hm).lc _ hE l' st' hl' hs' ht
-  exact eq_ll H2 hm hl' hEl hh hEh
+      st'.raft.raftLog.abs.entryAt k = stb.raft.raftLog.abs.entryAt k :=
+  RaftProps.C01d.C03_cluster_leader_completeness cfg c0 h H.toHyp3w n a b ha hb l sta stb hla hlb
+    hs hc m s hm l' st' hl' hs' ht
 
 /-- the logs of two commit events agree up to the smaller commit index -/
 theorem ev_logs_agree {cfg : JointConfig} {c0 : Nat} {h : List Sys} (H : Hyp3 cfg c0 h)
-    {E1 E2 : Ev} (h1 : E1.ok h) (h2 : E2.ok h) (hle : E1.c ≤ E2.c) : EqUpTo E1.gE E2.gE E1.c := by
-  have H2 := H.toHyp2
-  obtain ⟨l1, hh1, _⟩ := Ev.leaderLog H2 h1
-  obtain ⟨l2, _, _⟩ := Ev.leaderLog H2 h2
-  have S := sall H (E1.nE + E2.nE + 2)
-  have := ctf H2 S h2 h1 (by omega) hle (fun _ => ⟨E1.gE, l1.mono (by omega)⟩)
-  exact ll_eq_below H2 l1 l2 hh1 this
+    {E1 E2 : Ev} (h1 : E1.ok h) (h2 : E2.ok h) (hle : E1.c ≤ E2.c) : EqUpTo E1.gE E2.gE E1.c :=
+  RaftProps.C01d.ev_logs_agree H.toHyp3w h1 h2 hle
 
 /-- **C04 `cluster_follower_commit_sound`** — *every* commit index is sound: in every state `h[m]`,
 what a node `v` has marked committed is at most the common snapshot point `c0`, or it was committed by
@@ -168,13 +142,8 @@ theorem C04_cluster_follower_commit_sound (cfg : JointConfig) (c0 : Nat) (h : Li
       stb.raft.state = .leader ∧ sta.raft.raftLog.committed < stb.raft.raftLog.committed ∧
       st.raft.raftLog.committed ≤ stb.raft.raftLog.committed ∧ stb.raft.term ≤ st.raft.term ∧
       ∀ k, k ≤ st.raft.raftLog.committed →
-        st.raft.raftLog.abs.entryAt k = stb.raft.raftLog.abs.entryAt k := by
-  rcases (sm_all H hm).nctm v st hv with c | ⟨E, hE, h2, h3, h4, h5⟩
-  · exact .inl c
-  · right
-    obtain ⟨a, b, sta, stb, ha, hb, hla, hlb, hs, ht, hc, e1, e2, _⟩ := hE
-    exact ⟨E.nE, a, b, E.l, sta, stb, h2, ha, hb, hla, hlb, hs, hc, by rw [← e1]; exact h3,
-      by rw [ht]; exact h4, by rw [← e2]; exact h5⟩
+        st.raft.raftLog.abs.entryAt k = stb.raft.raftLog.abs.entryAt k :=
+  RaftProps.C01d.C04_cluster_follower_commit_sound cfg c0 h H.toHyp3w m s hm v st hv
 
 /-- … and so is every **stored** commit index (what a restarted node starts from): it is not ahead of
 the commit index, and it is covered by a leader's commit of a term not above the stored term, with the
@@ -190,14 +159,8 @@ theorem C04_cluster_stored_commit_sound (cfg : JointConfig) (c0 : Nat) (h : List
       st.raft.raftLog.store.hardState.commit ≤ stb.raft.raftLog.committed ∧
       stb.raft.term ≤ st.raft.raftLog.store.hardState.term ∧
       ∀ k, k ≤ st.raft.raftLog.store.hardState.commit →
-        (storeLog st.raft.raftLog.store).entryAt k = stb.raft.raftLog.abs.entryAt k) := by
-  refine ⟨(sm_all H hm).scm v st hv, ?_⟩
-  rcases (sm_all H hm).ncts v st hv with c | ⟨E, hE, h2, h3, h4, h5⟩
-  · exact .inl c
-  · right
-    obtain ⟨a, b, sta, stb, ha, hb, hla, hlb, hs, ht, hc, e1, e2, _⟩ := hE
-    exact ⟨E.nE, a, b, E.l, sta, stb, h2, ha, hb, hla, hlb, hs, hc, by rw [← e1]; exact h3,
-      by rw [ht]; exact h4, by rw [← e2]; exact h5⟩
+        (storeLog st.raft.raftLog.store).entryAt k = stb.raft.raftLog.abs.entryAt k) :=
+  RaftProps.C01d.C04_cluster_stored_commit_sound cfg c0 h H.toHyp3w m s hm v st hv
 
 /-- **C01 `cluster_state_machine_safety`** — any two nodes, in any two states of the history (the same
 node before and after a restart included), hold the same entry at every index both have marked
@@ -209,21 +172,9 @@ theorem C01_cluster_state_machine_safety (cfg : JointConfig) (c0 : Nat) (h : Lis
     (m2 : Nat) (s2 : Sys) (hm2 : h[m2]? = some s2) (v2 : Nat) (st2 : NState)
     (hv2 : s2.node v2 = some st2)
     (k : Nat) (hk1 : k ≤ st1.raft.raftLog.committed) (hk2 : k ≤ st2.raft.raftLog.committed) :
-    st1.raft.raftLog.abs.entryAt k = st2.raft.raftLog.abs.entryAt k := by
-  have H2 := H.toHyp2
-  have o1 := node_ok H2 hm1 hv1
-  have o2 := node_ok H2 hm2 hv2
-  by_cases hk0 : k ≤ c0
-  · unfold LLog.entryAt
-    rw [if_pos (by rw [o1.snapIdx]; exact hk0), if_pos (by rw [o2.snapIdx]; exact hk0)]
-  rcases (sm_all H hm1).nctm v1 st1 hv1 with c | ⟨E1, hE1, _, a3, _, a5⟩
-  · omega
-  rcases (sm_all H hm2).nctm v2 st2 hv2 with c | ⟨E2, hE2, _, b3, _, b5⟩
-  · omega
-  rw [a5 k hk1, b5 k hk2]
-  rcases Nat.le_total E1.c E2.c with hle | hle
-  · exact ev_logs_agree H hE1 hE2 hle k (by omega)
-  · exact (ev_logs_agree H hE2 hE1 hle k (by omega)).symm
+    st1.raft.raftLog.abs.entryAt k = st2.raft.raftLog.abs.entryAt k :=
+  RaftProps.C01d.C01_cluster_state_machine_safety cfg c0 h H.toHyp3w m1 s1 hm1 v1 st1 hv1 m2 s2 hm2
+    v2 st2 hv2 k hk1 hk2
 
 /-- … in particular for the **applied** entries of two nodes whose applied index is within their
 commit index (`AppliedOk`, which holds outside the restart window — `raft_log.rs:44-46`). -/
